@@ -3,6 +3,7 @@ package main
 import (
 	"encoding/json"
 	"flag"
+	"fmt"
 	"google.golang.org/protobuf/types/known/timestamppb"
 	"math/rand"
 	"os"
@@ -317,7 +318,60 @@ func shuffled(r *rand.Rand, nl *sbom.NodeList) *sbom.NodeList {
 }
 
 // genExtract: arbitrary multigraphs, every start node and depth, on the list and on a shuffled copy (C15).
+// genExtractBig: sizes and shapes beyond what the random generator reaches: a list of 300 nodes holding two
+// applications (the second root is reachable from the first), and a chain of 30 diamonds (2^30 paths, 91 nodes).
+func genExtractBig(s *scriptWriter, which int) {
+	g := &sbom.NodeList{}
+	add := func(id string) { g.Nodes = append(g.Nodes, &sbom.Node{Id: id}) }
+	edge := func(from string, to ...string) {
+		g.Edges = append(g.Edges, &sbom.Edge{Type: sbom.Edge_contains, From: from, To: to})
+	}
+	starts := []string{}
+	if which == 0 {
+		add("app")
+		add("tools")
+		for i := 0; i < 298; i++ {
+			id := fmt.Sprintf("p%d", i)
+			add(id)
+			if i < 200 {
+				edge("app", id)
+			} else {
+				edge("tools", id)
+			}
+		}
+		edge("p7", "tools") // the other application is reached from inside the first one
+		edge("p250", "p3")
+		g.RootElements = []string{"app", "tools"}
+		starts = []string{"app", "tools", "p7"}
+	} else {
+		add("d0")
+		for k := 0; k < 30; k++ {
+			l, rr, nx := fmt.Sprintf("d%d-l", k), fmt.Sprintf("d%d-r", k), fmt.Sprintf("d%d", k+1)
+			add(l)
+			add(rr)
+			add(nx)
+			edge(fmt.Sprintf("d%d", k), l, rr)
+			edge(l, nx)
+			edge(rr, nx)
+		}
+		g.RootElements = []string{"d0"}
+		starts = []string{"d0", "d15"}
+	}
+	s.reset(map[string]*sbom.NodeList{"g": g, "o1": emptyNL()})
+	for _, id := range starts {
+		s.op("Graph", "a", "g", "id", id, "out", "o1")
+		s.op("Siblings", "a", "g", "id", id, "out", "o1")
+		for _, d := range []int{1, 2, 40, 200} {
+			s.op("Descendants", "a", "g", "id", id, "depth", d, "out", "o1")
+		}
+	}
+}
+
 func genExtract(r *rand.Rand, s *scriptWriter, ids []string) {
+	if s.sid < 2 && len(ids) > 5 {
+		genExtractBig(s, s.sid) // the first two scripts of the larger generator are the big ones
+		return
+	}
 	o := listOpts{ids: ids, rich: 0.05, types: edgeTypes2, maxNodes: len(ids), ill: r.Intn(3) == 0}
 	if r.Intn(4) == 0 {
 		// identifiers that continue one another by digits, edge types whose numbers continue those digits, and several
@@ -368,7 +422,7 @@ func matchNode(r *rand.Rand, id string) *sbom.Node {
 	}
 	if r.Intn(3) > 0 {
 		n.Identifiers = map[int32]string{}
-		if r.Intn(4) > 0 {
+		if r.Intn(4) > 0 { // also on FILE nodes: a file may carry a package URL identifier, it just has no purl of its own
 			n.Identifiers[1] = pick(r, []string{"pkg:npm/p@1", "pkg:npm/q@1"})
 		}
 		if r.Intn(3) == 0 {
@@ -383,6 +437,21 @@ func matchNode(r *rand.Rand, id string) *sbom.Node {
 
 // genMatch: node matching on the list and on shuffles of it, each repeated (map iteration order) (C16).
 func genMatch(r *rand.Rand, s *scriptWriter, ids []string) {
+	if s.sid == 0 {
+		// one list beyond any size threshold (a prime number of nodes): the only hash match sits at the very end, a
+		// second probe matches two nodes far apart
+		g := &sbom.NodeList{}
+		for i := 0; i < 1031; i++ {
+			g.Nodes = append(g.Nodes, &sbom.Node{Id: fmt.Sprintf("n%d", i), Hashes: map[int32]string{3: fmt.Sprintf("%064d", i)}})
+		}
+		g.Nodes[3].Hashes = map[int32]string{3: "twin"}
+		g.Nodes[1029].Hashes = map[int32]string{3: "twin"}
+		s.reset(map[string]*sbom.NodeList{"g": g})
+		for _, h := range []string{fmt.Sprintf("%064d", 1030), fmt.Sprintf("%064d", 0), fmt.Sprintf("%064d", 515), "twin", "nobody"} {
+			s.op("Match", "a", "g", "p", proj.Node(&sbom.Node{Id: "probe", Hashes: map[int32]string{3: h}}))
+		}
+		return
+	}
 	g := &sbom.NodeList{}
 	for _, id := range ids[:1+r.Intn(len(ids))] {
 		g.Nodes = append(g.Nodes, matchNode(r, id))
